@@ -4,9 +4,11 @@ use crate::util::*;
 use rustyline::completion::{longest_common_prefix, unescape, FilenameCompleter};
 use std::io::{BufRead, Write};
 
-fn build_layout(root: &std::path::Path, layout: &str) {
+fn build_layout(root: &std::path::Path, layout: &str) -> Vec<std::path::PathBuf> {
+    let mut reals = Vec::new();
+    let mut nlink = 0;
     if layout == "_" {
-        return;
+        return reals;
     }
     for tok in layout.split(',') {
         let (kind, rest) = tok.split_at(1);
@@ -16,6 +18,18 @@ fn build_layout(root: &std::path::Path, layout: &str) {
             }
             "D" => {
                 std::fs::create_dir_all(root.join(parse_str(rest))).unwrap();
+            }
+            "S" => {
+                // a directory that is a symbolic link to a real directory kept outside the listed tree
+                let real = root.with_extension(format!("real{}", nlink));
+                nlink += 1;
+                std::fs::create_dir_all(&real).unwrap();
+                std::os::unix::fs::symlink(&real, root.join(parse_str(rest))).unwrap();
+                reals.push(real);
+            }
+            "X" => {
+                // a symbolic link whose target does not exist
+                std::os::unix::fs::symlink(root.with_extension("missing"), root.join(parse_str(rest))).unwrap();
             }
             "G" | "H" => {
                 let (p, n) = rest.split_once('|').unwrap();
@@ -30,6 +44,7 @@ fn build_layout(root: &std::path::Path, layout: &str) {
             _ => panic!("layout token {tok}"),
         }
     }
+    reals
 }
 
 pub fn run(inp: &mut dyn BufRead, out: &mut dyn Write) {
@@ -48,7 +63,7 @@ pub fn run(inp: &mut dyn BufRead, out: &mut dyn Write) {
                 n += 1;
                 let dir = base.join(format!("c{}", n));
                 std::fs::create_dir_all(&dir).unwrap();
-                build_layout(&dir, t[1]);
+                let reals = build_layout(&dir, t[1]);
                 std::env::set_current_dir(&dir).unwrap();
                 let mut outs = Vec::new();
                 for l in &t[2..] {
@@ -74,6 +89,9 @@ pub fn run(inp: &mut dyn BufRead, out: &mut dyn Write) {
                 }
                 std::env::set_current_dir(&base).unwrap();
                 let _ = std::fs::remove_dir_all(&dir);
+                for r in reals {
+                    let _ = std::fs::remove_dir_all(&r);
+                }
                 outs.join(" ; ")
             }
             "lcp" => {
